@@ -605,6 +605,7 @@ class RowWiseModifiedBisectionSearch:
             best_drilling = float("inf")
             best_excess = None
             best_spacing = None
+            best_specifier = None
             for ts in target_spacings:
                 if use_perimeter:
                     field, f_s = field_optimization_wp_space_fr(
@@ -642,12 +643,17 @@ class RowWiseModifiedBisectionSearch:
                     best_drilling = total_drilling
                     best_excess = t_e
                     best_spacing = ts
+                    best_specifier = f_s
                 elif t_e <= 0.0 and total_drilling < best_drilling:
                     best_drilling = total_drilling
                     best_field = field
                     best_excess = t_e
                     best_spacing = ts
+                    best_specifier = f_s
             selected_coordinates = best_field
+            # the specifier of the field that is returned (it used to be the one of the last feasible bisection
+            # midpoint, or None when no midpoint was feasible, which made the output writer fail)
+            selected_specifier = best_specifier
             selected_temp_excess = best_excess
             selected_spacing = best_spacing
 
